@@ -32,6 +32,10 @@ pub struct Plan {
     /// not evaluated (the properties speak of queries and transactions), everything after it is
     #[serde(default)]
     pub rename_before: Option<u64>,
+    /// after a clean close: the file is put back into the format without a storage version record (what older
+    /// releases wrote), reopened - which upgrades it in place - and crash points inside that upgrade are evaluated
+    #[serde(default)]
+    pub legacy_reopen: bool,
     pub steps: Vec<Op>,
 }
 
@@ -71,6 +75,7 @@ pub fn generate(focus: &str, seed: u64, run: u64, tier: Tier) -> Plan {
         },
         close: rng.chance(2, 3),
         rename_before: if rng.chance(1, 6) { Some(rng.below(steps.len() as u64 + 1)) } else { None },
+        legacy_reopen: rng.chance(1, 5),
         steps,
     }
 }
@@ -183,7 +188,7 @@ pub fn exec(plan: &Plan, trials: &mut Trials) -> RunReport {
         }
         Caught::Budget => return rep,
     };
-    let _ = base;
+    let closed_image = base;
 
     // ---- crash points: replay the journal over the image taken right after creation
     let total = journal.len();
@@ -266,6 +271,71 @@ pub fn exec(plan: &Plan, trials: &mut Trials) -> RunReport {
                             first_viol = true;
                         }
                     }
+                }
+            }
+        }
+    }
+
+    // ---- the upgrade of a file without a storage version record, interrupted at every mutating call
+    if plan.legacy_reopen && plan.close && !first_viol {
+        let name = if renamed.is_some() { DB2 } else { DB };
+        let wal_name = if renamed.is_some() { WAL2 } else { WAL };
+        let expected = dumps.last().cloned();
+        let mut legacy: Image = Image::new();
+        if let (Some(data), Some(expected)) = (closed_image.get(name), expected) {
+            // the version record is the first record of the file: index 0, size 8
+            if data.len() >= 24 && data[0..8] == 0u64.to_le_bytes() && data[8..16] == 8u64.to_le_bytes() {
+                legacy.insert(name.to_string(), data[24..].to_vec());
+                let fs = SimFs::from_image(legacy.clone());
+                fs.install();
+                fs.record(true);
+                let opened = catch(|| AnyDb::open(plan.variant, name).map(std::mem::forget).map_err(|e| describe(&e)));
+                let journal = fs.take_journal();
+                SimFs::uninstall();
+                match opened {
+                    Caught::Ok(Ok(())) => {
+                        rep.count("history.legacy_format_upgrade", 1);
+                        let mut img = legacy;
+                        for k in 0..=journal.len() {
+                            if k > 0 {
+                                simfs::apply_event(&mut img, &journal[k - 1]);
+                            }
+                            let mut snaps = vec![(img.clone(), format!("crash after FS event {k}/{} of the format upgrade at open", journal.len()))];
+                            if plan.torn
+                                && k < journal.len()
+                                && let EvOp::Write { data, .. } = &journal[k].op
+                                && data.len() > 1
+                            {
+                                let mut t = img.clone();
+                                simfs::apply_torn(&mut t, &journal[k], data.len() / 2);
+                                snaps.push((t, format!("crash after FS event {k}/{} of the format upgrade at open + half of the next {} write", journal.len(), if journal[k].path == wal_name { "log" } else { "data" })));
+                            }
+                            for (snap, desc) in snaps {
+                                for v in &others {
+                                    let Some(trial) = trials.begin() else { continue };
+                                    rep.evals += 1;
+                                    rep.count("fault.crash_inside_format_upgrade", 1);
+                                    match open_and_dump(&snap, *v, name) {
+                                        Ok(d) => {
+                                            if d != expected && focus == "C03" && !first_viol {
+                                                let dd = expected.diff(&d, "state before the upgrade", "reopened");
+                                                rep.viols.push(Viol { property: "C03".into(), class: "partial-effect-visible".into(), detail: format!("{desc}, reopened as {v:?}: {}", clip(&dd.first().map(|(_, m)| m.clone()).unwrap_or_default())), trial });
+                                                first_viol = true;
+                                            }
+                                        }
+                                        Err((class, detail)) => {
+                                            if focus == "C02" && !first_viol {
+                                                rep.viols.push(Viol { property: "C02".into(), class, detail: format!("{desc}: {detail}"), trial });
+                                                first_viol = true;
+                                            }
+                                        }
+                                    }
+                                }
+                            }
+                        }
+                    }
+                    Caught::Ok(Err(e)) => rep.viols.push(Viol { property: "HARNESS".into(), class: "legacy-image".into(), detail: format!("a file without the version record did not open: {e}"), trial: 0 }),
+                    _ => {}
                 }
             }
         }
